@@ -30,6 +30,7 @@ type Obs struct {
 	ErrText    string `json:"errText,omitempty"`
 	CompileErr string `json:"compileErr,omitempty"`
 	Panicked   bool   `json:"panicked,omitempty"`
+	Hung       bool   `json:"hung,omitempty"`
 }
 
 // RunExprCase compiles and renders the case with the real code.
@@ -45,7 +46,12 @@ func RunExprCase(c *ExprCase, explicitPrint bool) {
 	if c.Env.IJ != nil {
 		ij = ToDataMap(c.Env.IJ)
 	}
-	res := comp.Render("t.m", ToDataMap(c.Env.Vars), ij)
+	SetCurrent(c.File)
+	res := comp.RenderWatch("t.m", ToDataMap(c.Env.Vars), ij, 20*time.Second)
+	if res.Hung {
+		c.Obs = Obs{Err: true, ErrText: "HUNG: " + res.ErrS(), Hung: true}
+		return
+	}
 	c.Obs = Obs{Err: res.Err != nil, Out: res.Out, ErrText: res.ErrS(), Panicked: res.Panicked}
 	if res.Err != nil {
 		c.Obs.Out = res.Out
